@@ -361,7 +361,7 @@ class Server:
                 s.close()
                 return True
             except OSError:
-                time.sleep(0.02)
+                time.sleep(0.001)
         return False
 
     def alive(self):
